@@ -173,6 +173,10 @@ def _site(res, rid, key, fn, patterns, mul_pattern, where):
     `if offset:` - the offset is subtracted from the same data.  Returns the binding (or None)."""
     from engine.pat import find, find_all
 
+    if isinstance(mul_pattern, (tuple, list)):
+        # alternative spellings of the scaling step: the first one present is the site's
+        alts = list(mul_pattern)
+        mul_pattern = next((m_ for m_ in alts if find_all(fn.node, patterns + [m_]) is not None), alts[0])
     b = find_all(fn.node, patterns + [mul_pattern])
     ok = b is not None
     found = ""
@@ -259,7 +263,7 @@ def apply_idiom(repo, res):
     # in_base
     fn = arr.func("unyt_array.in_base")
     res.fn(fn)
-    b = _site(res, r2, "in_base", fn, ["__new, (__f, __o) = _em_conversion(__u0, __cd, unit_system=__us)", "__f, __o = self.units.get_conversion_factor(__new, self.dtype)"], "__d = self.value * __f", fn.where())
+    b = _site(res, r2, "in_base", fn, ["__new, (__f, __o) = _em_conversion(__u0, __cd, unit_system=__us)", "__f, __o = self.units.get_conversion_factor(__new, self.dtype)"], ("__d = np.asarray(self.ndview * __f, dtype=___dt)", "__d = self.value * __f"), fn.where())
     if b is not None:
         rets = [n for n in fn.body if isinstance(n, ast.Return)]
         res.check(len(rets) == 1 and cnorm(rets[0].value) == f"type(self)({b['__d']}, {b['__new']})", "in_base:result", fn.where(), "in_base wraps the converted data with the target unit", rid=r2)
@@ -470,7 +474,7 @@ MUTANTS = [
     Mutant("get_mks-equivalent-cgs", UO, "Unit.get_mks_equivalent", 'unit_system="mks"', 'unit_system="cgs"', ("C03-R1",)),
     Mutant("in_units-offset-added", ARR, "unyt_array.in_units", "np.subtract(ret, offset, ret)", "np.add(ret, offset, ret)", ("C03-R2",)),
     Mutant("convert-offset-first", ARR, "unyt_array.convert_to_units", "            values *= conv_factor\n\n            if offset:\n                np.subtract(values, offset, values)", "            if offset:\n                np.subtract(values, offset, values)\n            values *= conv_factor\n", ("C03-R2",)),
-    Mutant("in_base-no-offset", ARR, "unyt_array.in_base", "        if offset:\n            ret = ret - offset\n", "", ("C03-R2",)),
+    Mutant("in_base-no-offset", ARR, "unyt_array.in_base", "        if offset:\n            np.subtract(ret, offset, ret)\n        return type(self)(ret, to_units)", "        return type(self)(ret, to_units)", ("C03-R2",)),
     Mutant("mirror-broken", UO, "_get_conversion_factor", "                new_baseoffset /= new_basevalue", "                new_baseoffset *= new_basevalue", ("C03-R3",)),
     Mutant("em-one-sided", UO, None, '("G", dims.magnetic_field_cgs): (dims.magnetic_field_mks, "T", 1.0e-4)', '("G", dims.magnetic_field_cgs): (dims.magnetic_field_mks, "T", 1.0e-3)', ("C03-R4",)),
     Mutant("em-two-sided-slip", UO, None, "0.1 * speed_of_light_cm_per_s),\n    (\"statC\"", "0.01 * speed_of_light_cm_per_s),\n    (\"statC\"", ("C03-R4",)),
